@@ -118,30 +118,34 @@ pub fn check_frames(r: &Replay, g: &Game, c: &mut Case) {
     if c.oracle.is_empty() { check_row_view(g, c); }
 }
 
+/// one row view (`transpose::Frame`) against the columns of `fr` at index `i`, both read from public fields by hand
+pub fn compare_view(t: &peppi::frame::transpose::Frame, fr: &im::Frame, i: usize) -> Result<(), String> {
+    if t.id != fr.id.values()[i] { return Err(format!("frame({}).id {} != column {}", i, t.id, fr.id.values()[i])); }
+    if t.ports.len() != fr.ports.len() { return Err(format!("frame({}) has {} ports, columns {}", i, t.ports.len(), fr.ports.len())); }
+    for (tp, cp) in t.ports.iter().zip(&fr.ports) {
+        if tp.port != cp.port { return Err(format!("frame({}) port {:?} != {:?}", i, tp.port, cp.port)); }
+        let mut pairs = vec![(&tp.leader, &cp.leader)];
+        match (&tp.follower, &cp.follower) { (Some(a), Some(b)) => pairs.push((a, b)), (None, None) => {} _ => return Err(format!("frame({}) follower presence differs from columns", i)) }
+        for (a, b) in pairs {
+            if dump::tr_pre_row(&a.pre) != dump::pre_row(&b.pre, i) { return Err(format!("frame({}) port {:?} pre {:?} != columns {:?}", i, tp.port, dump::tr_pre_row(&a.pre), dump::pre_row(&b.pre, i))); }
+            if dump::tr_post_row(&a.post) != dump::post_row(&b.post, i) { return Err(format!("frame({}) port {:?} post {:?} != columns {:?}", i, tp.port, dump::tr_post_row(&a.post), dump::post_row(&b.post, i))); }
+        }
+    }
+    match (&t.start, &fr.start) { (Some(a), Some(b)) => if dump::tr_start_row(a) != dump::start_row(b, i) { return Err(format!("frame({}) start differs", i)); }, (None, None) => {} _ => return Err(format!("frame({}) start presence differs", i)) }
+    match (&t.end, &fr.end) { (Some(a), Some(b)) => if dump::tr_end_row(a) != dump::end_row(b, i) { return Err(format!("frame({}) end differs", i)); }, (None, None) => {} _ => return Err(format!("frame({}) end presence differs", i)) }
+    match (&t.items, &fr.item, &fr.item_offset) { (Some(items), Some(col), Some(off)) => {
+        let (s, e) = (off.as_slice()[i] as usize, off.as_slice()[i + 1] as usize);
+        if items.len() != e - s { return Err(format!("frame({}) has {} items, offsets delimit {}", i, items.len(), e - s)); }
+        for (k, it) in items.iter().enumerate() { if dump::tr_item_row(it) != dump::item_row(col, s + k) { return Err(format!("frame({}) item {} differs from column row {}", i, k, s + k)); } } }
+        (None, None, None) => {} _ => return Err(format!("frame({}) items presence differs", i)) }
+    Ok(())
+}
+
 pub fn check_row_view(g: &Game, c: &mut Case) {
     use peppi::game::Game as _;
-    let fr = &g.frames; let n = fr.id.len();
-    for i in 0..n {
+    for i in 0..g.frames.id.len() {
         let t = match std::panic::catch_unwind(std::panic::AssertUnwindSafe(|| g.frame(i))) { Ok(t) => t, Err(_) => { c.fail("C13", format!("frame({}) panicked", i)); return; } };
-        if t.id != fr.id.values()[i] { c.fail("C13", format!("frame({}).id {} != column {}", i, t.id, fr.id.values()[i])); }
-        if t.ports.len() != fr.ports.len() { c.fail("C13", format!("frame({}) has {} ports, columns {}", i, t.ports.len(), fr.ports.len())); return; }
-        for (tp, cp) in t.ports.iter().zip(&fr.ports) {
-            if tp.port != cp.port { c.fail("C13", format!("frame({}) port {:?} != {:?}", i, tp.port, cp.port)); }
-            let mut pairs = vec![(&tp.leader, &cp.leader)];
-            match (&tp.follower, &cp.follower) { (Some(a), Some(b)) => pairs.push((a, b)), (None, None) => {} _ => c.fail("C13", format!("frame({}) follower presence differs from columns", i)) }
-            for (a, b) in pairs {
-                if dump::tr_pre_row(&a.pre) != dump::pre_row(&b.pre, i) { c.fail("C13", format!("frame({}) port {:?} pre {:?} != columns {:?}", i, tp.port, dump::tr_pre_row(&a.pre), dump::pre_row(&b.pre, i))); }
-                if dump::tr_post_row(&a.post) != dump::post_row(&b.post, i) { c.fail("C13", format!("frame({}) port {:?} post {:?} != columns {:?}", i, tp.port, dump::tr_post_row(&a.post), dump::post_row(&b.post, i))); }
-            }
-        }
-        match (&t.start, &fr.start) { (Some(a), Some(b)) => if dump::tr_start_row(a) != dump::start_row(b, i) { c.fail("C13", format!("frame({}) start differs", i)); }, (None, None) => {} _ => c.fail("C13", format!("frame({}) start presence differs", i)) }
-        match (&t.end, &fr.end) { (Some(a), Some(b)) => if dump::tr_end_row(a) != dump::end_row(b, i) { c.fail("C13", format!("frame({}) end differs", i)); }, (None, None) => {} _ => c.fail("C13", format!("frame({}) end presence differs", i)) }
-        match (&t.items, &fr.item, &fr.item_offset) { (Some(items), Some(col), Some(off)) => {
-            let (s, e) = (off.as_slice()[i] as usize, off.as_slice()[i + 1] as usize);
-            if items.len() != e - s { c.fail("C13", format!("frame({}) has {} items, offsets delimit {}", i, items.len(), e - s)); }
-            else { for (k, it) in items.iter().enumerate() { if dump::tr_item_row(it) != dump::item_row(col, s + k) { c.fail("C13", format!("frame({}) item {} differs from column row {}", i, k, s + k)); } } } }
-            (None, None, None) => {} _ => c.fail("C13", format!("frame({}) items presence differs", i)) }
-        if !c.oracle.is_empty() { return; }
+        if let Err(e) = compare_view(&t, &g.frames, i) { c.fail("C13", e); return; }
     }
 }
 
@@ -480,6 +484,8 @@ fn ubj(rng: &mut Rng, ctx: &mut Ctx) {
         let mut body = vec![]; gen_tree(rng, 1, &mut body);
         let mut clean = true;
         if k % 40 == 39 { let d = 120 + (rng.next() % 20) as usize; body.clear(); for _ in 0..d - 1 { body.extend(b"U\x01a{"); } for _ in 0..d - 1 { body.push(b'}'); } clean = d <= 127; }
+        if k % 40 == 19 { // wide but shallow: many maps in total, little nesting
+            let n = 100 + (rng.next() % 120) as usize; body.clear(); for i in 0..n { body.extend(b"U\x03"); body.extend(format!("{:03}", i).as_bytes()); body.push(b'{'); if i % 7 == 0 { body.extend(b"U\x01x{U\x01yl\x00\x00\x00\x01}"); } body.push(b'}'); } clean = true; }
         if k % 9 == 8 && !body.is_empty() { let i = (rng.next() as usize) % body.len(); body[i] = (rng.next() >> 8) as u8; clean = false; }
         let mut r = simple((3,16,0), &[(0,0,2)], 1, &[], rng); r.metadata = Some(body.clone());
         let file = encode(&r);
